@@ -26,18 +26,20 @@ type c20Attempt struct {
 }
 
 type c20Getter struct {
-	t0        time.Time
-	failFirst int // number of failures before the first success; <0 = forever
-	latency   time.Duration
-	hdr       map[string][]string
-	body      []byte
-	url       string
-	attempts  []c20Attempt
-	urls      []string
-	sameInst  int
-	busy      bool
-	errKind   int // which error the failures carry (see c20Failure); errMixed: a different kind each attempt
-	errMixed  bool
+	t0         time.Time
+	failFirst  int // number of failures before the first success; <0 = forever
+	latency    time.Duration
+	hdr        map[string][]string
+	body       []byte
+	url        string
+	attempts   []c20Attempt
+	urls       []string
+	sameInst   int
+	busy       bool
+	errKind    int // which error the failures carry (see c20Failure); errMixed: a different kind each attempt
+	errMixed   bool
+	retryAfter int  // seconds named in the Retry-After header of failure kind 6
+	latFirst   bool // only the first attempt is slow (a connection that times out once), later ones answer at once
 }
 
 type c20NetTimeout struct{}
@@ -79,7 +81,7 @@ func (g *c20Getter) Get(u string) (map[string][]string, []byte, error) {
 	} else {
 		g.sameInst = 0
 	}
-	if g.latency > 0 {
+	if g.latency > 0 && (!g.latFirst || len(g.attempts) == 0) {
 		time.Sleep(g.latency)
 	}
 	en := time.Since(g.t0)
@@ -91,6 +93,11 @@ func (g *c20Getter) Get(u string) (map[string][]string, []byte, error) {
 		k := g.errKind
 		if g.errMixed {
 			k += idx
+		}
+		if k%7 == 6 {
+			// a failed response that still carries headers and a body (an HTTP 429 / 503 with Retry-After,
+			// as trust.SimpleHTTPSGetter could hand on): advice from the far side does not lift the configured cap
+			return map[string][]string{"Retry-After": {fmt.Sprint(g.retryAfter)}, "Content-Type": {"text/plain"}}, []byte("slow down"), fmt.Errorf("failed to retrieve %s, status code received 429", url)
 		}
 		return nil, nil, c20Failure(k, idx, url)
 	}
@@ -207,7 +214,12 @@ func c20Run(r *core.Run) {
 	if emptyBody {
 		r.Probe("successful_response_with_empty_body")
 	}
-	errKind, errMixed := r.T.Draw(6), r.T.Chance(1, 3)
+	errKind, errMixed := r.T.Draw(7), r.T.Chance(1, 3)
+	retryAfter := []int{7200, int(3*maxDelay/time.Second) + 1}[r.T.Draw(2)]
+	latFirst := lat > 0 && r.T.Chance(1, 3)
+	if latFirst {
+		r.Probe("only_first_attempt_slow")
+	}
 	if errKind == 1 || errKind == 2 || errMixed {
 		r.Probe("failures_wrap_context_errors")
 	}
@@ -244,7 +256,7 @@ func c20Run(r *core.Run) {
 			}
 			// keep the enumeration shape identical under Focus: we need to know when to stop,
 			// which depends on outcomes, so execute silently without judging.
-			g := &c20Getter{failFirst: ff, latency: lat, hdr: hdr, body: body, url: url, errKind: errKind, errMixed: errMixed}
+			g := &c20Getter{failFirst: ff, latency: lat, hdr: hdr, body: body, url: url, errKind: errKind, errMixed: errMixed, latFirst: latFirst, retryAfter: retryAfter}
 			res := c20Bubble(r.TB, timeout, maxDelay, g, long)
 			if res.aborted || res.err != nil {
 				gaveUp++
@@ -256,7 +268,7 @@ func c20Run(r *core.Run) {
 		if emptyBody {
 			body = []byte{} // a successful response may have an empty body: it is a success all the same
 		}
-		g := &c20Getter{failFirst: ff, latency: lat, hdr: hdr, body: body, url: url, errKind: errKind, errMixed: errMixed}
+		g := &c20Getter{failFirst: ff, latency: lat, hdr: hdr, body: body, url: url, errKind: errKind, errMixed: errMixed, latFirst: latFirst, retryAfter: retryAfter}
 		res := c20Bubble(r.TB, timeout, maxDelay, g, long)
 		r.Eval()
 		r.SimTime += res.elapsed
@@ -337,6 +349,12 @@ func c20Run(r *core.Run) {
 				break
 			}
 		}
+		if res.err != nil && nAtt > 0 {
+			// the wait that ends in giving up is a wait too
+			if last := res.elapsed - g.attempts[nAtt-1].end; last > maxDelay {
+				r.Violate("C20:wait-exceeds-max", "%s: after the last failed attempt Get sat for %v before giving up, MaxRetryDelay is %v", name, last, maxDelay)
+			}
+		}
 		if res.err != nil {
 			gaveUp++
 			if res.elapsed > bound {
@@ -401,7 +419,7 @@ func init() {
 		ID:    "C20",
 		Level: "fault_enumeration",
 		Rule: "grid Timeout{0,1ms,1.5s,10s,2min,1h} x MaxRetryDelay{0,1ms,3s,30s,10min} x per-attempt latency{0,1ms,1s,40s} enumerated completely (one run per cell), " +
-			"inside each cell k failures-then-success for every k until the getter gives up twice, then failures forever; failures carry the errors a real getter fails with (plain, *url.Error wrapping context.DeadlineExceeded as http.Client.Timeout gives, wrapped context.Canceled, unexpected EOF, a net timeout, an HTTP status text), one kind per cell or a different one each attempt; besides the bounds from the statement, an error returned while even a full MaxRetryDelay wait would end inside the timeout is an early give-up; thorough adds tape-chosen settings beyond the grid. " +
+			"inside each cell k failures-then-success for every k until the getter gives up twice, then failures forever; failures carry the errors a real getter fails with (plain, *url.Error wrapping context.DeadlineExceeded as http.Client.Timeout gives, wrapped context.Canceled, unexpected EOF, a net timeout, an HTTP status text, a 429 handed on with its Retry-After header and body), one kind per cell or a different one each attempt; besides the bounds from the statement, an error returned while even a full MaxRetryDelay wait would end inside the timeout is an early give-up; thorough adds tape-chosen settings beyond the grid. " +
 			"distinct = (timeout idx, delay idx, latency idx, k bucket, outcome); every case has at least one injected failure or a slow/zero setting except k=0 (kept as control)",
 		Exhaustive: true,
 		Assumptions: []string{
